@@ -675,6 +675,13 @@ def rule_intpow(ctx):
           flat += [x for x in v.items if isinstance(x, Poly)]
         elif isinstance(v, Poly):
           flat.append(v)
+      # a comprehension over a literal tuple stands for its instances: [2 ** (x - d) for d in (100, 128)]
+      for v in list(flat):
+        for at in v.all_atoms():
+          if at.kind == "map" and len(at.args) == 3 and isinstance(at.args[0], Poly) and isinstance(at.args[2], Poly) and at.args[2].as_atom() is not None \
+             and at.args[2].as_atom().kind == "seq":
+            for i_ in range(len(at.args[2].as_atom().args)):        # the bound variable of a map atom is the position in its source
+              flat.append(sym.rebuild(at.args[0].deep_subst(at.args[1], Poly.const(i_))))
       for v in flat:
         for at in v.all_atoms():
           if at.kind != "pow" or len(at.args) != 2 or (as_poly(at.args[0]).as_int() or 0) < 2:
